@@ -259,7 +259,7 @@ func run(c *Ctx) {
 	QuietLogs()
 	globalBase = runtime.NumGoroutine()
 	im := NewImpl("C18", c.Seed, c.Tier)
-	im.Rule = "white-box histories of 1-25 advertisements/withdrawals (2-5 nodes x 2 services, timestamps 1..12 so that equal/older/newer and withdrawal-then-older all occur) delivered to one real node; non-trivial = the history contains an advertisement older than a withdrawal already delivered; mesh scenarios: non-trivial = at least one listener closed and one late joiner; distinct by full history"
+	im.Rule = "white-box histories of 1-25 advertisements/withdrawals (2-5 nodes x 2 services, timestamps 1..12 so that equal/older/newer and withdrawal-then-older all occur) delivered to one real node; non-trivial = the history contains an advertisement older than a withdrawal already delivered; delayed copies: nodes whose seen-update expiry is 300 ms (its sweep runs every 150 ms) receive an advertisement, its withdrawal and then copies of older advertisements at once and after 0.5-1.2 s of the node's housekeeping timers, with message stamps both far in the past and of the moment; non-trivial = a copy delivered after at least two sweeps; mesh scenarios: non-trivial = at least one listener closed and one late joiner; distinct by full history"
 	cf := &CaseFile{Dir: c.Out, Prop: "C18", Imports: []string{"Model.AdsConc"}, CaseType: "c18x_case", CheckFn: checkFn(), PerShard: 80}
 	nh := 800
 	if c.Thorough() {
@@ -290,6 +290,7 @@ func run(c *Ctx) {
 	}
 	if !onlyLocal {
 		concurrentAds(c, im, cf)
+		delayedAfterSweeps(c, im)
 		periodicVsClose(c, im)
 		meshScenarios(c, im)
 	}
@@ -886,5 +887,99 @@ func periodicVsClose(c *Ctx, im *Impl) {
 		im.Hist("periodic-vs-close:round")
 		im.Extra["periodic_ads_observed"] = len(ads)
 		im.Count(fmt.Sprintf("periodic-vs-close %d fast=%v closed=%d ads=%d", round, fast, closed, len(ads)), closed > 20 && len(ads) > 50)
+	}
+}
+
+// ---------- delayed copies after the node's housekeeping timers have run ----------
+
+// delayedAfterSweeps: "once a node has learned that a service was withdrawn it does not list that
+// service again unless its owner advertises it anew" has no time limit, and a flooded copy may be
+// delayed for any time.  Nodes with a short seen-update expiry (so that every periodic sweep of the
+// node runs several times within the scenario) learn an advertisement and its withdrawal, then get
+// older advertisements of the same service: at once, and again after the timers have run.  Stamps
+// are taken far in the past (like the histories above) and at the moment of the call.
+func delayedAfterSweeps(c *Ctx, im *Impl) {
+	r := NewRng(c.Seed*2654435761 + 18)
+	rounds := 4
+	if c.Thorough() {
+		rounds = 16
+	}
+	for k := 0; k < rounds; k++ {
+		WaitGoroutinesAtMost(globalBase, 3*time.Second)
+		ctx, cancel := context.WithCancel(context.Background())
+		n := netceptor.NewWithConsts(ctx, "self", 16384, time.Hour, time.Hour, 300*time.Millisecond, 30, time.Hour)
+		chA, _ := n.VerifAddConn("c0", 1, 4096)
+		chB, _ := n.VerifAddConn("c1", 1, 4096)
+		base := t0
+		if k%2 == 1 {
+			base = time.Now().Add(-50 * time.Millisecond) // stamps of the moment
+		}
+		mk := func(node, svc string, ms int, cancelAd bool) []byte {
+			m := adMsg{NodeID: node, Service: svc, Time: base.Add(time.Duration(ms) * time.Millisecond), ConnType: 1, Tags: map[string]string{"b": "1"}, Cancel: cancelAd}
+			if cancelAd {
+				m.Tags = nil
+			}
+			j, _ := json.Marshal(m)
+			return append([]byte{netceptor.MsgTypeServiceAdvertisement}, j...)
+		}
+		listed := func(node, svc string) bool {
+			_, ok := n.VerifServiceAds()[node][svc]
+			return ok
+		}
+		relayed := func() int {
+			cnt := 0
+			for _, ch := range []chan []byte{chA, chB} {
+				for _, m := range Drain(ch) {
+					if len(m) > 0 && m[0] == netceptor.MsgTypeServiceAdvertisement {
+						cnt++
+					}
+				}
+			}
+			return cnt
+		}
+		bad := func(what, sig string) {
+			im.Violate(fmt.Sprintf("delayed copies, round %d: %s", k, what), sig, map[string]interface{}{"scenario": "delayed-after-sweeps", "round": k, "stamps": map[bool]string{false: "past", true: "now"}[k%2 == 1]})
+		}
+		node, svc := "nb", fmt.Sprintf("s%d", k)
+		_ = n.VerifHandleServiceAdvertisement(mk(node, svc, 5, false), "c0")
+		time.Sleep(30 * time.Millisecond)
+		if !listed(node, svc) {
+			bad("a first advertisement is not listed", "ad-not-listed")
+		}
+		_ = n.VerifHandleServiceAdvertisement(mk(node, svc, 9, true), "c0")
+		time.Sleep(30 * time.Millisecond)
+		if listed(node, svc) {
+			bad("a newer withdrawal did not remove the service", "withdrawal-ignored")
+		}
+		relayed()
+		// a second, never-listed service whose withdrawal arrives first
+		_ = n.VerifHandleServiceAdvertisement(mk(node, svc+"x", 9, true), "c1")
+		time.Sleep(30 * time.Millisecond)
+		relayed() // the withdrawal itself may be passed on
+		waits := []time.Duration{0, time.Duration(500+r.Intn(300)) * time.Millisecond, time.Duration(300+r.Intn(400)) * time.Millisecond}
+		for wi, w := range waits {
+			time.Sleep(w)
+			for _, sv := range []string{svc, svc + "x"} {
+				old := 3 + r.Intn(6) // 3..8: older than the withdrawal (9)
+				_ = n.VerifHandleServiceAdvertisement(mk(node, sv, old, false), []string{"c1", "c0"}[wi%2])
+				time.Sleep(30 * time.Millisecond)
+				im.Count(fmt.Sprintf("delayed %d %d %s %d", k, wi, sv, old), wi > 0)
+				im.Hist("delayed:older-copy-after-withdrawal")
+				if listed(node, sv) {
+					bad(fmt.Sprintf("service %s/%s is listed again after an advertisement older than its withdrawal arrived %v after the withdrawal (the owner never advertised it anew)", node, sv, w), "withdrawn-resurrected-after-delay")
+				}
+				if nr := relayed(); nr > 0 {
+					bad(fmt.Sprintf("an advertisement older than the withdrawal of %s/%s, arriving %v later, was relayed (%d copies)", node, sv, w, nr), "older-relayed-after-delay")
+				}
+			}
+		}
+		// the owner advertises it anew: listed again
+		_ = n.VerifHandleServiceAdvertisement(mk(node, svc, 12, false), "c0")
+		time.Sleep(30 * time.Millisecond)
+		if !listed(node, svc) {
+			bad("an advertisement newer than the withdrawal is not listed", "new-ad-not-listed")
+		}
+		cancel()
+		n.Shutdown()
 	}
 }
